@@ -24,6 +24,13 @@ def run(tier, seed):
                        os.path.join(d, "EventualProto.tla"), os.path.join(d, "EventualProtoUnlockFirst.cfg"), timeout=600, expect="violation")
     if not r["violated"]:
         raise vlib.Broken("the unlock-before-broadcast variant of EventualProto is not rejected: the invariants are vacuous")
+    for cfg, what in (("FutureProtoMC.cfg", "3 setters on 2 compartments, 2 waiters, a tester"), ("FutureProtoMC3.cfg", "4 setters on 3 compartments, 2 waiters, a tester")):
+        vlib.tlc_check(chk, "FutureProto: set / wait / lock-free test as coded (callback before the counter is published), exhaustive incl. liveness, %s" % what,
+                       os.path.join(d, "FutureProto.tla"), os.path.join(d, cfg), timeout=600)
+    for cfg, what in (("FutureProtoPublishEarly.cfg", "counter published before the callback runs"), ("FutureProtoCheckUnlocked.cfg", "wait reading the counter before taking the lock")):
+        r = vlib.tlc_check(chk, "FutureProto with the %s (must be violated)" % what, os.path.join(d, "FutureProto.tla"), os.path.join(d, cfg), timeout=600, expect="violation")
+        if not r["violated"]:
+            raise vlib.Broken("the variant of FutureProto (%s) is not rejected: the properties are vacuous" % what)
     vlib.history_check(chk, "d_sync", ["eventual"], "H_Eventual", quick, seed,
                        what="eventual history is not a history of a set-once/wait/test/reset object")
     vlib.history_check(chk, "d_sync", ["future"], "H_Future", quick, seed,
